@@ -389,7 +389,7 @@ def push(st, s, y):
     st['ver'] += 1
 
 
-def monitor(op, out, st):
+def _monitor(op, out, st):
     t = T(op)
     kind = t.tok()
     if out in ('bad-op', 'parse-error') or out == 'exception' and kind != 'new':
@@ -566,6 +566,26 @@ def monitor(op, out, st):
                 return (f'apply_masked(q, γ={g!r}, J={J}) ≠ dense BFGS of the {len(sub)} pairs valid on J '
                         f'restricted to J: component {j}: got {r[j]!r}, expected {float(e)!r}')
         return None
+    return None
+
+
+def monitor(op, out, st):
+    """`_monitor` plus the failing op *sequence* (everything since the last `new`) in the message,
+    so that a replay file is self-contained."""
+    if op.startswith('new '):
+        st['seq'] = []
+    seq = st.get('seq')
+    m = _monitor(op, out, st)
+    if seq is None:
+        seq = []
+    st['seq'] = seq                      # `_monitor` clears st on `new`
+    seq.append(op)
+    if m:
+        shown = seq if len(seq) <= 60 else seq[:1] + ['…'] + seq[-59:]
+        tailmsg = ' || op sequence: ' + ' ; '.join(shown)
+        if isinstance(m, tuple):
+            return (m[0] + tailmsg, m[1])
+        return m + tailmsg
     return None
 
 
